@@ -150,6 +150,32 @@ def gen(rng, k, dll=None):
         inject.append(dict(t=t0 + 2000, to=0, id=did, data=[1] + pl[:7], via='listener'))
         on_tx.append(dict(s=0, pgn16=0xEC00 + PEER, data0=255, nth=1, deliver=[dict(id=did, data=[2] + pl[7:14])]))
         t_stream_end = t0 + 2000
+    # directed family: a burst of frames that each wake the job thread arrives while that thread is inside a long application
+    # callback which then registers a timer (as the address-claim callback does): the wake-ups must neither be lost nor block
+    storm = False
+    if rng.random() < 0.1:
+        storm = True
+        t0 = t_stream_end + 200000
+        script.append(dict(t=t0, s=0, op='add_timer', cid=950, delta=1000, ret=False,
+                           script=[dict(op='park', d=6000), dict(op='add_timer', cid=951, delta=40000, ret=False)]))
+        for i in range(rng.choice([40, 70, 130])):
+            sa_i = 0x60 + i % 0x40
+            if dll == 'j1939-22':
+                inject.append(dict(t=t0 + 1500 + 30 * i, to=0, id=R.ref_can_id(7, 0x4D00 + 255, sa_i), data=fd_cm(4, i % 4, 200, 4, 255, 0, 0xFE00 + i % 200), fd=True, via='listener'))
+            else:
+                inject.append(dict(t=t0 + 1500 + 30 * i, to=0, id=R.ref_can_id(7, 0xEC00 + 255, sa_i), data=[32, 20, 0, 3, 255] + R.ref_pgn3(0xFE00 + i % 200), via='listener'))
+        t_stream_end = t0 + 10000
+    # directed family (FD): the stack's own broadcasts are in flight while end-of-message acknowledgements for the same session
+    # numbers arrive (from the global address, from a peer): a broadcast session number goes back to the broadcast pool only
+    if dll == 'j1939-22' and rng.random() < 0.15:
+        tt = t_stream_end + 100000
+        for i in range(rng.choice([2, 5])):
+            script.append(dict(t=tt, s=0, op='send', a=[0, 0xFE, 0x40 + i, 6, LOCAL_E, dict(seed=rng.getrandbits(20), len=100 + rng.randint(0, 80))]))
+            for sess in range(4):
+                inject.append(dict(t=tt + 4000 + 200 * sess, to=0, id=R.ref_can_id(7, 0x4D00 + LOCAL_E, rng.choice([255, PEER])),
+                                   data=fd_cm(3, sess, 100, 2, 255, 255, 0xFE40 + i), fd=True, via='listener'))
+            tt += 200000
+        t_stream_end = max(t_stream_end, tt)
     # the stack may itself be sending while the stream arrives
     for _ in range(rng.choice([0, 0, 1, 2])):
         ts = rng.randint(1000, max(2000, t_stream_end))
@@ -175,6 +201,9 @@ def gen(rng, k, dll=None):
               t_quiet=t_quiet, follow=[p1, p2])
     if on_tx:
         sc['on_tx'] = on_tx
+    if storm:
+        sc['oracle_only'] = True          # frames handled while the job thread is inside a callback: outside the atomic-handler model
+    sc['inject'].sort(key=lambda e: e['t'])
     return sc
 
 
